@@ -166,7 +166,16 @@ def in_child(body, side):
         code = 0
         try:
             import signal
+            import sys
             signal.alarm(0)
+            # the process-shared lock of cooler.parallel lives in memory shared with the parent: a child that dies while
+            # holding it would block every later child, which no real process death does - each child gets its own
+            import cooler.parallel as cp
+            import multiprocess as mp_
+            old_lock, fresh = cp.lock, mp_.Lock()
+            for m in list(sys.modules.values()):
+                if m is not None and getattr(m, "lock", None) is old_lock:
+                    m.lock = fresh
             save({"done": True, "res": body(save)})
         except BaseException:
             code = 3
@@ -175,7 +184,16 @@ def in_child(body, side):
             except BaseException:
                 pass
         os._exit(code)          # never return into the worker's stack (nor run its atexit handlers)
-    _, st = os.waitpid(pid, 0)
+    try:
+        _, st = os.waitpid(pid, 0)
+    except BaseException:          # the watchdog of the worker fired: do not leave the child behind
+        import signal
+        try:
+            os.kill(pid, signal.SIGKILL)
+            os.waitpid(pid, 0)
+        except OSError:
+            pass
+        raise
     code = os.waitstatus_to_exitcode(st)
     with open(side) as f:
         got = json.load(f)
